@@ -143,7 +143,14 @@ def e3_inheritance(doc, full):
     d = copy.deepcopy(doc)
     d["structures"].append({"name": "VerifDeepMixed", "properties": [{"name": "verifOwn", "type": B("string"), "optional": True}],
                             "mixins": [R("HoverParams")]})
-    out.append(("new structure mixing in HoverParams (a mixin that itself extends and mixes in other structures)", "E3:mixin-with-parents", d))
+    d["notifications"].append({"method": "verif/deepMixed", "typeName": "VerifDeepMixedNotification", "params": R("VerifDeepMixed"), "messageDirection": "clientToServer"})
+    out.append(("new structure mixing in HoverParams (a mixin that itself extends and mixes in other structures), used by a new notification", "E3:mixin-with-parents", d))
+    d = copy.deepcopy(doc)
+    lit1 = {"kind": "literal", "value": {"properties": [{"name": "author", "type": B("string")}]}}
+    lit2 = {"kind": "literal", "value": {"properties": [{"name": "revision", "type": B("uinteger")}, {"name": "note", "type": B("string"), "optional": True}]}}
+    d["structures"].append({"name": "VerifFirstOwner", "properties": [{"name": "metadata", "type": lit1}]})
+    d["structures"].append({"name": "VerifSecondOwner", "properties": [{"name": "metadata", "type": lit2, "optional": True}]})
+    out.append(("two new structures with an anonymous literal under the same property name", "E1+E2:same-literal-name-twice", d))
     d = copy.deepcopy(doc)
     d["structures"].append({"name": "VerifKindMixin", "properties": [{"name": "kind", "type": B("string")}, {"name": "label", "type": B("string"), "optional": True}]})
     d["structures"].append({"name": "VerifArchiveParams", "properties": [{"name": "kind", "type": {"kind": "stringLiteral", "value": "archive"}},
